@@ -88,7 +88,7 @@ def cmd12 (ts : List String) : String :=
     let text := ks.map text12
     let a := parse12 lexK12 ks
     let b := parse12 lex12 text
-    joinLines text ++ "#" ++ show12 b ++ "#" ++ fB (show12 a == show12 b)
+    joinLines text ++ "#" ++ show12 b ++ "#" ++ fB ((show12 a).replace "D" "E" == show12 b)
   | _ => "bad-args"
 
 /-! ### ADF11:  `adf11 cls elemZ elemName z name zmin zmax nNe nTe altEnd nmeta meta.. nblocks z1.. ne.. te.. rates(block, i_te, i_ne)..`
